@@ -39,7 +39,7 @@ GEOM_DEVS = ("BoxAsWritten",)
 TREE_ACTIONS = ["AReveal", "ASkipVisited", "AEnterPages", "AEnterPage", "AEnterOther", "ALoopKid", "ALoopEnd",
                 "ASelSkip", "ASelYield"]
 GEOM_ACTIONS = ["AParseBox", "AParseRotate", "ACtm90", "ACtm180", "ACtm270", "ACtmElse", "ABeginPage", "ARenderMark"]
-TREE_INVARIANTS = ["TypeOK", "DFSOrder", "NearestAncestor", "VisitedOnce", "Selection", "SelectionSane", "LoopShape"]
+TREE_INVARIANTS = ["TypeOK", "DFSOrder", "NearestAncestor", "VisitedOnce", "Selection", "SelectionSane", "LoopShape", "LabelByIndex"]
 ALLK = '{"Pages", "Page", "Other"}'
 
 GEOM_CONFIGS = {
@@ -50,9 +50,10 @@ GEOM_CONFIGS = {
 }
 
 
-def tree_cfg(name, N, K, E, attrs, cat=(), root=ALLK, kinds=ALLK, back=True, pn="<- PN_None", mp="{0}", need=None):
+def tree_cfg(name, N, K, E, attrs, cat=(), root=ALLK, kinds=ALLK, back=True, pn="<- PN_None", mp="{0}", need=None, own="<- AllOwnSets"):
     return dict(name=name, N=N, K=K, E=E, attrs=tuple(attrs), cat=tuple(cat), root=root, kinds=kinds, back=back, pn=pn,
-                mp=mp, need=need if need is not None else TREE_ACTIONS)
+                mp=mp, need=need if need is not None else TREE_ACTIONS, own=own,
+                inh=tuple(a for a in attrs if a in RT.INHERITABLE))
 
 
 SEL_ACTIONS = ["AReveal", "AEnterPages", "AEnterPage", "ALoopKid", "ALoopEnd", "ASelSkip", "ASelYield"]
@@ -67,6 +68,8 @@ TREE_CONFIGS = {
         tree_cfg("select-flat", 7, 6, 6, [], root='{"Pages"}', kinds='{"Page"}', back=False, pn="<- PN_Sub6",
                  mp="{0, 1, 2, 3, 4, 5, 6, 7}", need=SEL_ACTIONS),
         tree_cfg("select-tree", 4, 3, 3, [], pn="<- PN_Sub3", mp="{0, 1, 2}"),
+        tree_cfg("annots", 4, 2, 3, ["Rotate", "Annots"], root='{"Pages"}', kinds='{"Pages", "Page"}',
+                 need=[a for a in NOSEL if a != "AEnterOther"]),
     ],
     "thorough": [
         tree_cfg("shapes", 6, 3, 5, ["Rotate"], need=NOSEL),
@@ -78,9 +81,14 @@ TREE_CONFIGS = {
         tree_cfg("select-flat", 8, 7, 7, [], root='{"Pages"}', kinds='{"Page"}', back=False, pn="<- PN_Sub6",
                  mp="{0, 1, 2, 3, 4, 5, 6, 7, 8}", need=SEL_ACTIONS),
         tree_cfg("select-tree", 5, 3, 4, [], pn="<- PN_Sub3", mp="{0, 1, 2, 3, 4}"),
+        tree_cfg("annots", 5, 2, 4, ["Rotate", "Annots"], root='{"Pages"}', kinds='{"Pages", "Page"}',
+                 need=[a for a in NOSEL if a != "AEnterOther"]),
+        # all four attributes on up to 5 nodes: every node carries none, one, or all four of them
+        tree_cfg("four-attrs-5", 5, 2, 4, RT.INHERITABLE, root='{"Pages"}', kinds='{"Pages", "Page"}', own="<- FewOwnSets",
+                 need=[a for a in NOSEL if a != "AEnterOther"]),
     ],
 }
-COVERAGE_ON = ("shapes", "catalog", "select-flat", "select-tree", "three-attrs-chain")   # quick tier: vacuity guard
+COVERAGE_ON = ("shapes", "catalog", "select-flat", "select-tree", "three-attrs-chain", "annots")   # quick tier: vacuity guard
 SIMULATE = dict(N=6, K=4, E=8, attrs=RT.INHERITABLE, cat=RT.INHERITABLE, num=1000, depth=70)
 
 logging.disable(logging.CRITICAL)      # pdfminer warns about every defaulted MediaBox
@@ -151,6 +159,14 @@ def known_keys(pid):
         return {e["key"] for e in _json.load(open(p)) if e.get("status") == "known"}
     except OSError:
         return set()
+
+
+def note_extended(ck, key, what):
+    """extended coverage (outside the property's statement): a counter per key, the first case of each as a NOTE"""
+    ext = ck.extra.setdefault("extended_coverage", {})
+    ext[key] = ext.get(key, 0) + 1
+    if ext[key] == 1:
+        ck.note("EXTENDED-COVERAGE %s: %s" % (key, what[:600]))
 
 
 def proper_subsets(dev):
@@ -322,6 +338,7 @@ def tree_jobs(conf, dev, tmp, emit_path, tier):
     tdev = [d for d in dev if d in TREE_DEVS]
     consts = {"N": conf["N"], "K": conf["K"], "E": conf["E"],
               "Attrs": tla_set(conf["attrs"]) if conf["attrs"] else "<- NoAttrs",
+              "Inheritable": tla_set(conf["inh"]) if conf["inh"] else "<- NoAttrs", "OwnSets": conf["own"],
               "CatAttrs": tla_set(conf["cat"]) if conf["cat"] else "<- NoAttrs",
               "RootKinds": conf["root"], "Kinds": conf["kinds"], "AllowBack": "TRUE" if conf["back"] else "FALSE",
               "PageNoSets": conf["pn"], "MaxPagesSet": conf["mp"]}
@@ -371,10 +388,17 @@ def as_props(p):
     return pr if isinstance(pr, dict) else {}
 
 
-def describe_page(p, vals, geom):
-    """the sources of the four inheritable attributes, read back from what pdfminer reports for the page"""
+def describe_page(p, vals, geom, annot_src=None):
+    """the sources of the four inheritable attributes (and of /Annots), read back from what pdfminer reports"""
     out = {}
     extra = []
+    an = OB.resolve1(p.annots)
+    if an is None:
+        out["Annots"] = 0
+    elif isinstance(an, list) and an and isinstance(an[0], OB.PDFObjRef):
+        out["Annots"] = (annot_src or {}).get(an[0].objid, ("?", an[0].objid))
+    else:
+        out["Annots"] = ("?", repr(an))
     res = OB.resolve1(p.resources)
     f1 = None
     if isinstance(res, dict):
@@ -404,7 +428,7 @@ def describe_page(p, vals, geom):
 
 
 def expected_sources(label, props, attrs, vals):
-    e = {}
+    e = {"Annots": props.get("Annots", 0) if "Annots" in attrs else 0}
     for a in RT.INHERITABLE:
         if a in attrs:
             e[a] = props.get(a, 0)
@@ -442,7 +466,7 @@ def eval_tree_case(rec, attrs, variant, shift, geom, deep=True, text=True):
         return out
     real = []
     for p in pages:
-        srcs, extra = describe_page(p, vals, geom)
+        srcs, extra = describe_page(p, vals, geom, meta["annot_src"])
         for x in extra:
             if x == "cropbox-default":
                 findings.append(("cropbox-default", "a page without CropBox reports cropbox %r, mediabox %r" % (p.cropbox, p.mediabox)))
@@ -461,6 +485,10 @@ def eval_tree_case(rec, attrs, variant, shift, geom, deep=True, text=True):
         for (lab, srcs), rp, cp in zip(real, ref, coded):
             want = expected_sources(lab, as_props(rp), attrs, vals)
             have = expected_sources(lab, as_props(cp), attrs, vals)
+            if srcs["Annots"] != want["Annots"]:
+                # not one of the four attributes of C04's statement: extended coverage
+                findings.append(("extended:annots", "page %s reports /Annots of source %r, its own dictionary has %r (never inherited) on %s"
+                                 % (lab, srcs["Annots"], want["Annots"] or None, detail)))
             for a in RT.INHERITABLE:
                 if srcs[a] == want[a]:
                     continue
@@ -603,6 +631,9 @@ def replay_trees(ck, conf, recs, geom, both_variants):
             for i, v, findings, d, nontrivial, sample in res:
                 drift += d
                 for key, what in findings:
+                    if key.startswith("extended:"):
+                        note_extended(ck, key[len("extended:"):], what)
+                        continue
                     if key == "walk-mutates-document":
                         # not a clause of C04 (the pages produced are still right): history independence is C12's
                         # business.  Reported as spec/code drift - the model's document does not change.
@@ -614,7 +645,7 @@ def replay_trees(ck, conf, recs, geom, both_variants):
                                            "shift": (ck.seed + i) % 7, "config": conf["name"]})
                 ck.case(1, ("T", conf["name"], i) if nontrivial else None)
                 ck.replayed += 1
-                if sample is not None and not [f for f in findings if f[0] != "walk-mutates-document"]:
+                if sample is not None and not [f for f in findings if f[0] != "walk-mutates-document" and not f[0].startswith("extended:")]:
                     ck.sample(sample, limit=6)
     return drift
 
@@ -663,7 +694,8 @@ def simulate_four(ck, dev, geom):
     s = SIMULATE
     tdev = [d for d in dev if d in TREE_DEVS]
     cfg = write_cfg(os.path.join(ck.tmp, "c04_sim.cfg"),
-                    constants={"N": s["N"], "K": s["K"], "E": s["E"], "Attrs": tla_set(s["attrs"]), "CatAttrs": tla_set(s["cat"]),
+                    constants={"N": s["N"], "K": s["K"], "E": s["E"], "Attrs": tla_set(s["attrs"]), "Inheritable": tla_set(s["attrs"]),
+                               "OwnSets": "<- AllOwnSets", "CatAttrs": tla_set(s["cat"]),
                                "RootKinds": '{"Pages"}', "Kinds": ALLK, "AllowBack": "TRUE", "PageNoSets": "<- PN_Few",
                                "MaxPagesSet": "{0, 1, 2, 3}", "Dev": tla_set(tdev) if tdev else "<- NoDev"},
                     invariants=TREE_INVARIANTS, constraints=["EmitTerminal"], deadlock=False)
